@@ -47,11 +47,38 @@ type RowQ struct {
 
 func (RowQ) TableName() string { return "rows" }
 
-// SoftPtr: use RowQ instead of Row as the soft-delete model of this process.
-var SoftPtr = os.Getenv("VERIF_SOFTPTR") != ""
+// RowD is the soft-delete model with TWO soft-delete fields (same table plus archived_at); SoftTwo selects it.
+// gorm filters on, and marks, the first of them.
+type RowD struct {
+	ID         int64 `gorm:"primaryKey"`
+	A          *int64
+	B          *int64
+	S          *string
+	M          int64
+	Ora        *int64 `gorm:"column:ora"`
+	Bandb      *int64 `gorm:"column:bandb"`
+	DeletedAt  gorm.DeletedAt
+	ArchivedAt gorm.DeletedAt
+}
+
+func (RowD) TableName() string { return "rows" }
+
+// SoftPtr: use RowQ instead of Row as the soft-delete model of this process; SoftTwo: use RowD.
+var SoftPtr = os.Getenv("VERIF_SOFTPTR") == "1"
+var SoftTwo = os.Getenv("VERIF_SOFTPTR") == "two"
+
+// SoftVar names the variant for the event log (so that a case is replayed on the same model).
+func SoftVar() interface{} {
+	if SoftTwo {
+		return "two"
+	}
+	return SoftPtr
+}
 
 func modelType(soft bool) reflect.Type {
 	switch {
+	case soft && SoftTwo:
+		return reflect.TypeOf(RowD{})
 	case soft && SoftPtr:
 		return reflect.TypeOf(RowQ{})
 	case soft:
@@ -531,7 +558,7 @@ func QEvent(caseNo int, chain []Unit, fin Fin, soft bool, o Obs) hx.M {
 	rc, _ := json.Marshal(chain)
 	rf, _ := json.Marshal(fin)
 	return hx.M{"ev": "Q", "case": caseNo, "rchain": string(rc), "rfin": string(rf), "fin": fin.Kind, "soft": soft, "unscoped": fin.Unscoped,
-		"allow": fin.Allow != "", "pk": fin.PK, "chain": ChainJSON(chain), "softptr": SoftPtr,
+		"allow": fin.Allow != "", "pk": fin.PK, "chain": ChainJSON(chain), "softptr": SoftVar(),
 		"ids": nzi(o.Ids), "n": o.N, "err": errc, "errtext": o.Err, "execs": o.Execs,
 		"begins": o.Begins, "commits": o.Commits, "rollbacks": o.Rollback,
 		"changed": nzi(o.Changed), "marked": nzi(o.Marked), "removed": nzi(o.Removed), "other": nzi(o.Other)}
